@@ -14,20 +14,20 @@ abbrev MsgId := Nat
 inductive Dial where
   | refuse
   | conn (c : ConnId)
-  deriving Repr, BEq, DecidableEq
+  deriving Repr, DecidableEq
 
 /-- Fault oracle: per connection the outcomes of its successive writes (true = nil error; a
 connection with an exhausted script fails), and the outcomes of successive dials. -/
 structure World where
   writes : List (ConnId × List Bool)
   dials : List Dial
-  deriving Repr, BEq, DecidableEq
+  deriving Repr, DecidableEq
 
 structure LogEntry where
   conn : ConnId
   msg : MsgId
   ok : Bool
-  deriving Repr, BEq, DecidableEq
+  deriving Repr, DecidableEq
 
 def popWrite (ws : List (ConnId × List Bool)) (c : ConnId) : List (ConnId × List Bool) × Bool :=
   match ws with
@@ -56,52 +56,60 @@ def retries : Nat := 2
 structure TcpClient where
   reconnectable : Bool
   conn : Option ConnId
-  deriving Repr, BEq, DecidableEq
+  deriving Repr, DecidableEq
+
+/-- outcome of the "make sure there is a connection" part of one loop iteration -/
+inductive Acq where
+  | refused (w : World)              -- dial failed and Send returns the error at once
+  | noConn (w : World)               -- still no connection: `continue`
+  | conn (w : World) (c : ConnId)
+
+/-- `if t.conn == nil && t.reconnectable { dial … return err on failure }` -/
+def clientAcquire (w : World) (t : TcpClient) : Acq :=
+  match t.conn with
+  | some c => .conn w c
+  | none =>
+    if t.reconnectable then
+      match w.dial with
+      | (w', .refuse) => .refused w'
+      | (w', .conn c) => .conn w' c
+    else .noConn w
 
 /-- `TCPClientTransport.Send`: `for i := 0; i < 2; i++`. A refused dial returns the error at once. -/
 def tcpClientSendLoop : Nat → World → TcpClient → MsgId → List LogEntry → World × TcpClient × Bool × List LogEntry
   | 0, w, t, _, log => (w, t, false, log)
   | fuel + 1, w, t, m, log =>
-    -- `none` = the dial was refused (Send returns the error at once); `some none` = no connection, `continue`
-    let (w1, st) : World × Option (Option ConnId) :=
-      match t.conn with
-      | some c => (w, some (some c))
-      | none =>
-        if t.reconnectable then
-          match w.dial with
-          | (w', .refuse) => (w', none)
-          | (w', .conn c) => (w', some (some c))
-        else (w, some none)
-    match st with
-    | none => (w1, t, false, log)
-    | some none => tcpClientSendLoop fuel w1 t m log
-    | some (some c) =>
-      let (w2, ok) := w1.write c
-      let log' := log ++ [{ conn := c, msg := m, ok := ok }]
-      if ok then (w2, { t with conn := some c }, true, log')
-      else tcpClientSendLoop fuel w2 { t with conn := none } m log'
+    match clientAcquire w t with
+    | .refused w1 => (w1, t, false, log)
+    | .noConn w1 => tcpClientSendLoop fuel w1 t m log
+    | .conn w1 c =>
+      match w1.write c with
+      | (w2, true) => (w2, { t with conn := some c }, true, log ++ [{ conn := c, msg := m, ok := true }])
+      | (w2, false) => tcpClientSendLoop fuel w2 { t with conn := none } m (log ++ [{ conn := c, msg := m, ok := false }])
 
 def tcpClientSend (w : World) (t : TcpClient) (m : MsgId) : World × TcpClient × Bool × List LogEntry :=
   tcpClientSendLoop retries w t m []
+
+/-- `if t.conn == nil { t.connect() }`: a refused dial only leaves the connection nil. -/
+def backendAcquire (w : World) (c : Option ConnId) : Acq :=
+  match c with
+  | some x => .conn w x
+  | none =>
+    match w.dial with
+    | (w', .refuse) => .noConn w'
+    | (w', .conn x) => .conn w' x
 
 /-- `TCPBackend.Send`: same loop, but a refused dial only skips the iteration. -/
 def tcpBackendSendLoop : Nat → World → Option ConnId → MsgId → List LogEntry → World × Option ConnId × Bool × List LogEntry
   | 0, w, c, _, log => (w, c, false, log)
   | fuel + 1, w, c, m, log =>
-    let (w1, c1) : World × Option ConnId :=
-      match c with
-      | some x => (w, some x)
-      | none =>
-        match w.dial with
-        | (w', .refuse) => (w', none)
-        | (w', .conn x) => (w', some x)
-    match c1 with
-    | none => tcpBackendSendLoop fuel w1 none m log
-    | some x =>
-      let (w2, ok) := w1.write x
-      let log' := log ++ [{ conn := x, msg := m, ok := ok }]
-      if ok then (w2, some x, true, log')
-      else tcpBackendSendLoop fuel w2 none m log'
+    match backendAcquire w c with
+    | .refused w1 => (w1, c, false, log)
+    | .noConn w1 => tcpBackendSendLoop fuel w1 none m log
+    | .conn w1 x =>
+      match w1.write x with
+      | (w2, true) => (w2, some x, true, log ++ [{ conn := x, msg := m, ok := true }])
+      | (w2, false) => tcpBackendSendLoop fuel w2 none m (log ++ [{ conn := x, msg := m, ok := false }])
 
 def tcpBackendSend (w : World) (c : Option ConnId) (m : MsgId) : World × Option ConnId × Bool × List LogEntry :=
   tcpBackendSendLoop retries w c m []
@@ -110,7 +118,7 @@ def tcpBackendSend (w : World) (c : Option ConnId) (m : MsgId) : World × Option
 structure FailOver where
   primary : Option TcpClient
   secondary : Option TcpClient
-  deriving Repr, BEq, DecidableEq
+  deriving Repr, DecidableEq
 
 def failOverSend (w : World) (f : FailOver) (m : MsgId) : World × FailOver × Bool × List LogEntry :=
   match f.primary with
